@@ -184,7 +184,7 @@ def full_id(case_id, failure):
 _MOD = None
 
 
-def _evaluate_guarded(params):
+def _evaluate_once(params):
     try:
         out = _MOD.evaluate(params)
         if not isinstance(out, Out):
@@ -192,6 +192,35 @@ def _evaluate_guarded(params):
     except Exception:
         out = Out()
         out.check("no_exception", False, detail=traceback.format_exc()[-1500:])
+    return out
+
+
+def _evaluate_guarded(params):
+    """Evaluate one case.  Unless the module opts out (OWN_SCHEDULING), the library's use of
+    concurrent.futures executors is put under a controlled scheduler: the unchanged library uses none, so there
+    are no choice points and this is a single plain evaluation; if a (changed) library farms work out to an
+    executor, every completion order with at most one non-FIFO decision is evaluated as well and any failure
+    under any of those schedules counts (sub id suffixed with the schedule)."""
+    if getattr(_MOD, "OWN_SCHEDULING", False):
+        return _evaluate_once(params)
+    from . import sched
+
+    def run(prefix):
+        ch = sched.Chooser(prefix)
+        with sched.patched_executors(ch):
+            out = _evaluate_once(params)
+        return ch, out
+    ch, out = run(())
+    if not ch.points:
+        return out
+    runs, capped = sched.explore(run, bound=1, max_runs=12)
+    for choices, o2 in runs[1:]:
+        tag = ":executor_schedule=" + "".join(map(str, choices))
+        for f in o2.failures:
+            f = dict(f)
+            f["sub"] = (f["sub"] or "") + tag
+            out.failures.append(f)
+        out.stat("executor_schedules_explored", 1)
     return out
 
 
